@@ -358,7 +358,7 @@ def plan(ctx):
                                               "overrides": {"PolarizationSamplingEventHandler": {"sampling_interval": 0.97}}},
                                     "cells": {"kind": "shipped", "name": "hard_disk_dipoles/hard_disk_dipoles_cells", "end": 1e9,
                                               "overrides": {"PolarizationSamplingEventHandler": {"sampling_interval": 0.97}}}},
-                       "refs": {}, "params": {"hard_radius": 0.5, "bond_range": [0.952380952380952, 1.047619047619048]}})
+                       "refs": {}, "params": {"hard_radius": 0.476190476190476, "bond_range": [0.952380952380952, 1.047619047619048]}})
     return groups
 
 
